@@ -20,7 +20,7 @@ vars == <<l, st, cur, phase>>
 R == Trace[l]
 
 Init == l = 1 /\ cur = {} /\ phase = 0
-        /\ st = [cases |-> 0, paths |-> 0, choices |-> 0, loopy |-> 0, dups |-> 0, nontrivial |-> 0]
+        /\ st = [cases |-> 0, paths |-> 0, choices |-> 0, loopy |-> 0, dups |-> 0, nontrivial |-> 0, toolong |-> 0]
 
 Eval == /\ cur' = {[ch |-> ch, q |-> PathOf(ch, R.ups, R.cores, R.downs), sh |-> ChoiceShape(ch, R.ups, R.cores, R.downs)] :
                       ch \in PathChoices(R.src, R.dst, R.ups, R.cores, R.downs)}
@@ -32,7 +32,9 @@ W(p) == Len(p.intfs) \div 2
 
 Judge ==
     LET Q == cur
-        Good == {x \in Q : ~Loopy(x.q.intfs)}
+        Rep(q) == Representable(q, MaxPathHops, MaxSegHops)
+        \* admissible AND existing as a SCION path (C29 does not demand paths that cannot exist)
+        Good == {x \in Q : ~Loopy(x.q.intfs) /\ Rep(x.q)}
         P == R.paths
         np == Len(P)
         PathKeys(j) ==
@@ -40,7 +42,10 @@ Judge ==
                 ph == HopsProj(p.hops)
                 m == {x \in Q : x.q.seglen = p.seglen /\ x.q.infos = p.infos /\ x.q.hops = ph}
                 mh == {x \in Q : x.q.hops = ph} IN
-            IF p.decode # "ok" THEN {"C28:path:raw-path-undecodable"}
+            IF \E x \in Q : x.q.intfs = p.intfs /\ ~Rep(x.q) /\ (p.decode # "ok" \/ x.q.hops # ph \/ x.q.seglen # p.seglen)
+              THEN {"C28:path:does-not-fit-path-header(" \o
+                    (IF \E x \in Q : x.q.intfs = p.intfs /\ Len(x.q.hops) > MaxPathHops THEN "hops>64)" ELSE "seglen>63)")}
+            ELSE IF p.decode # "ok" THEN {"C28:path:raw-path-undecodable"}
             ELSE IF mh = {} THEN {"C28:path:hops-not-from-input-segments"}
             ELSE IF \A x \in mh : x.q.seglen # p.seglen THEN {"C28:path:segment-lengths"}
             ELSE IF m = {} THEN
@@ -70,7 +75,8 @@ Judge ==
     IN  /\ \A k \in keys : PrintT(<<"VERIF-BAD", l, k>>)
         /\ \A k \in drift : PrintT(<<"VERIF-DRIFT", l, k>>)
         /\ st' = [cases |-> st.cases + 1, paths |-> st.paths + np, choices |-> st.choices + Cardinality(Q),
-                  loopy |-> st.loopy + Cardinality(Q) - Cardinality(Good), dups |-> st.dups + ndup,
+                  loopy |-> st.loopy + Cardinality({x \in Q : Loopy(x.q.intfs)}), dups |-> st.dups + ndup,
+                  toolong |-> st.toolong + Cardinality({x \in Q : ~Rep(x.q)}),
                   nontrivial |-> st.nontrivial + (IF Cardinality(Q) > 0 THEN 1 ELSE 0)]
 
 Step == /\ l <= Len(Trace)
@@ -88,6 +94,7 @@ Done == /\ l = Len(Trace) + 1
         /\ PrintT(<<"VERIF-STAT", "choices", st.choices>>)
         /\ PrintT(<<"VERIF-STAT", "loopy", st.loopy>>)
         /\ PrintT(<<"VERIF-STAT", "dups", st.dups>>)
+        /\ PrintT(<<"VERIF-STAT", "toolong", st.toolong>>)
         /\ PrintT(<<"VERIF-STAT", "nontrivial", st.nontrivial>>)
         /\ PrintT(<<"VERIF-DONE", Len(Trace)>>)
         /\ UNCHANGED vars
